@@ -701,3 +701,81 @@ package uhppote
 //@   ensures own: res != nil && fresh(res)
 //@   loop 1
 //@     invariant own: list != nil && fresh(list)
+
+// ---- the UDP/TCP driver (C03 receive filter, C06 driver level, C09 socket typestate) --------------
+// Ghost socket typestate: /verif/spec/net.spec; assumed contracts of package net: /verif/spec/lib/net.contracts.
+
+//@ func (*ut0311).debugf
+//@   params u, msg, err
+//@   requires driver: u != nil
+//@   ensures nothing: true
+
+//@ macro bindIP(u) = (u.bindAddr.ip.kind == 1 ? u.bindAddr.ip.bits : (u.bindAddr.ip.kind == 0 ? 0 : -1))
+//@ macro bindPort(u) = u.bindAddr.port
+//@ macro destIP(a) = (len(a.IP) == 4 ? wire.be32(row(a.IP), 0) : -1)
+
+// BroadcastTo: one UDP socket bound to the configured bind address, a deadline of now + timeout set before
+// anything blocking, exactly one datagram (the request) written to addr, datagrams read until the callback
+// accepts one (none for set-address, function 0x96), the socket closed and the send lock released on every path.
+//@ func (*ut0311).BroadcastTo
+//@   params u, addr, request, callback
+//@   returns (res, err)
+//@   requires driver: u != nil && addr != nil && len(addr.IP) == 4 && len(request) >= 2
+//@   modifies sock.opened, sock.closed, sock.kind, sock.lip, sock.lport, sock.rip, sock.rport, sock.dialdl, sock.deadline, sock.writes, sock.wip, sock.wport, sock.wbytes, sock.wlen, sock.reads, sock.unguarded, lock.held, lock.ops
+//@   define OPENED = sock.opened == old(sock.opened) + 1
+//@   ensures one:      sock.opened <= old(sock.opened) + 1 && (err == nil ==> OPENED)
+//@   ensures closed:   sock.closed - old(sock.closed) == sock.opened - old(sock.opened)
+//@   ensures lock:     lock.held == old(lock.held) && lock.ops - old(lock.ops) == (bindPort(u) != 0 ? 2 : 0)
+//@   ensures bind:     OPENED ==> sock.kind == 1 && sock.lport == bindPort(u) && (u.bindAddr.ip.kind != 2 ==> sock.lip == bindIP(u))
+//@   ensures guarded:  sock.unguarded == old(sock.unguarded)
+//@   ensures sent:     err == nil ==> sock.writes == old(sock.writes) + 1 && sock.wip == destIP(addr) && sock.wport == addr.Port && sock.wlen == len(request) &&
+//@                       (forall k int :: 0 <= k && k < len(request) ==> sock.wbytes[k] == old(request[k]))
+//@   ensures once:     sock.writes <= old(sock.writes) + 1
+//@   ensures noreply:  err == nil && request[1] == 150 ==> res == nil && sock.reads == old(sock.reads)
+//@   ensures accepted: err == nil && request[1] != 150 ==> res != nil && callback(res)
+//@   ensures failed:   err != nil ==> res == nil
+//@   loop 1
+//@     invariant open:  sock.opened == old(sock.opened) + 1 && sock.closed == old(sock.closed) && sock.deadline != 0 && sock.unguarded == old(sock.unguarded)
+//@     invariant sent:  sock.writes == old(sock.writes) + 1 && sock.wip == destIP(addr) && sock.wport == addr.Port && sock.wlen == len(request) && request[1] != 150 &&
+//@                      (forall k int :: 0 <= k && k < len(request) ==> sock.wbytes[k] == old(request[k]))
+//@     invariant kind:  sock.kind == 1 && sock.lport == bindPort(u) && (u.bindAddr.ip.kind != 2 ==> sock.lip == bindIP(u))
+//@     invariant lock:  lock.held == old(lock.held) + (bindPort(u) != 0 ? 1 : 0) && lock.ops == old(lock.ops) + (bindPort(u) != 0 ? 1 : 0)
+
+//@ macro sockMods() = true
+// SendUDP / SendTCP: one connected socket (udp4 / tcp4) from the configured bind address to addr, dialled and used
+// under a deadline of now + timeout, exactly one write (the request), at most one read, closed on every path.
+//@ func (*ut0311).SendUDP
+//@   params u, addr, request
+//@   returns (res, err)
+//@   requires driver: u != nil && addr != nil && len(request) >= 2
+//@   modifies sock.opened, sock.closed, sock.kind, sock.lip, sock.lport, sock.rip, sock.rport, sock.dialdl, sock.deadline, sock.writes, sock.wip, sock.wport, sock.wbytes, sock.wlen, sock.reads, sock.unguarded, lock.held, lock.ops
+//@   define OPENED = sock.opened == old(sock.opened) + 1
+//@   ensures one:      sock.opened <= old(sock.opened) + 1 && (err == nil ==> OPENED)
+//@   ensures closed:   sock.closed - old(sock.closed) == sock.opened - old(sock.opened)
+//@   ensures lock:     lock.held == old(lock.held) && lock.ops - old(lock.ops) == (bindPort(u) != 0 ? 2 : 0)
+//@   ensures dial:     OPENED ==> sock.kind == 2 && sock.dialdl != 0 && sock.lport == bindPort(u) && (u.bindAddr.ip.kind != 2 ==> sock.lip == bindIP(u)) &&
+//@                       sock.rport == addr.Port && (len(addr.IP) == 4 ==> sock.rip == wire.be32(row(addr.IP), 0))
+//@   ensures guarded:  sock.unguarded == old(sock.unguarded)
+//@   ensures sent:     err == nil ==> sock.writes == old(sock.writes) + 1 && sock.wlen == len(request) && (forall k int :: 0 <= k && k < len(request) ==> sock.wbytes[k] == old(request[k]))
+//@   ensures once:     sock.writes <= old(sock.writes) + 1 && sock.reads <= old(sock.reads) + 1
+//@   ensures noreply:  err == nil && request[1] == 150 ==> res == nil && sock.reads == old(sock.reads)
+//@   ensures reply:    err == nil && request[1] != 150 ==> res != nil && sock.reads == old(sock.reads) + 1
+//@   ensures failed:   err != nil ==> res == nil
+
+//@ func (*ut0311).SendTCP
+//@   params u, addr, request
+//@   returns (res, err)
+//@   requires driver: u != nil && addr != nil && len(request) >= 2
+//@   modifies sock.opened, sock.closed, sock.kind, sock.lip, sock.lport, sock.rip, sock.rport, sock.dialdl, sock.deadline, sock.writes, sock.wip, sock.wport, sock.wbytes, sock.wlen, sock.reads, sock.unguarded, lock.held, lock.ops
+//@   define OPENED = sock.opened == old(sock.opened) + 1
+//@   ensures one:      sock.opened <= old(sock.opened) + 1 && (err == nil ==> OPENED)
+//@   ensures closed:   sock.closed - old(sock.closed) == sock.opened - old(sock.opened)
+//@   ensures lock:     lock.held == old(lock.held) && lock.ops - old(lock.ops) == (bindPort(u) != 0 ? 2 : 0)
+//@   ensures dial:     OPENED ==> sock.kind == 3 && sock.dialdl != 0 && sock.lport == bindPort(u) && (u.bindAddr.ip.kind != 2 ==> sock.lip == bindIP(u)) &&
+//@                       sock.rport == addr.Port && (len(addr.IP) == 4 ==> sock.rip == wire.be32(row(addr.IP), 0))
+//@   ensures guarded:  sock.unguarded == old(sock.unguarded)
+//@   ensures sent:     err == nil ==> sock.writes == old(sock.writes) + 1 && sock.wlen == len(request) && (forall k int :: 0 <= k && k < len(request) ==> sock.wbytes[k] == old(request[k]))
+//@   ensures once:     sock.writes <= old(sock.writes) + 1 && sock.reads <= old(sock.reads) + 1
+//@   ensures noreply:  err == nil && request[1] == 150 ==> res == nil && sock.reads == old(sock.reads)
+//@   ensures reply:    err == nil && request[1] != 150 ==> res != nil && sock.reads == old(sock.reads) + 1
+//@   ensures failed:   err != nil ==> res == nil
